@@ -1,6 +1,6 @@
 (* Extraction of the trie model for ocaml/trie/driver.ml.  ExtrOcamlBasic only.
    The hash parameter is instantiated with the Gallina Keccak-256. *)
-From AQ Require Import Lib.Bytes Lib.ExtractBase Lib.Keccak Rlp.RlpSpec Trie.MptSpec Trie.TrieModel.
+From AQ Require Import Lib.Bytes Lib.ExtractBase Lib.Keccak Rlp.RlpSpec Trie.MptSpec Trie.TrieModel Trie.SecureModel Trie.IterModel Import.DeriveShaCode.
 Require Extraction.
 Require Import ExtrOcamlBasic.
 
@@ -11,5 +11,18 @@ Definition k_verify (root key : bytes) (nodes : list bytes) : res (option bytes)
   verify_proof root key (proof_db_of keccak256 nodes).
 Definition k_decode (hash : option bytes) (buf : bytes) : res node := decode_node_top hash buf 0.
 
+(* wrappers and the iterator state machine, at Keccak *)
+Definition k_sec_step (s : sstate) (o : sop) : sstate * obs := sec_step keccak256 s o.
+Definition k_derive_sha (items : list bytes) : res bytes := derive_sha_code keccak256 [] items.
+Definition k_trie_hash (t : trie) : res (bytes * trie) := trie_hash keccak256 t.
+Definition k_it_new (fuel : nat) (d : db) (gen : N) (rh : bytes) (root : node) (start : bytes) : niter :=
+  it_new keccak256 fuel d gen rh root start.
+Definition k_it_next (fuel : nat) (d : db) (gen : N) (rh : bytes) (root : node) (it : niter) (descend : bool) : bool * niter :=
+  it_next keccak256 fuel d gen rh root it descend.
+Definition k_iterate_from (t : trie) (d : db) (start : bytes) (fuel : nat) : res (list (bytes * bytes) * trie) :=
+  trie_iterate_from keccak256 t d start fuel.
+
 Extraction "../ocaml/trie/model.ml" base_anchor keccak256
-  k_run_ops k_step init_state k_mpt_root k_verify k_decode hex_to_compact compact_to_hex keybytes_to_hex hex_to_keybytes.
+  k_run_ops k_step init_state k_mpt_root k_verify k_decode hex_to_compact compact_to_hex keybytes_to_hex hex_to_keybytes
+  k_sec_step sec_init k_derive_sha k_trie_hash k_it_new k_it_next k_iterate_from
+  it_hash it_parent it_leaf it_leaf_key it_leaf_blob it_error.
